@@ -73,7 +73,14 @@ impl G<'_, '_> {
             }
             7 if can_nest => Factor::Opt(self.inner(nt, at_start, depth + 1)),
             8 if can_nest => Factor::Rep(self.inner(nt, at_start, depth + 1)),
-            9 if can_nest => Factor::Group(self.inner(nt, at_start, depth + 1)),
+            9 if can_nest => {
+                let mut a = self.inner(nt, at_start, depth + 1);
+                // now and then a group with an empty alternative: `( x | )`
+                if a.len() == 2 && self.t.next(5) == 4 {
+                    a[1].clear();
+                }
+                Factor::Group(a)
+            }
             _ => self.terminal(at_start, first_used),
         }
     }
